@@ -7,6 +7,8 @@ Developer tool for behaviour-preserving refactorings (not a check).
                                              (patch.diff + meta.json)
   tools/refac.py run [name ...] [--props C01,C02]   apply each stored refactoring to a scratch copy of /repo/pydsdl (tempfile) and run
                                              the checks on it with --repo; print the status matrix; scratch copies are removed
+                                             (a name like C07-agent4 is taken from /verif/seeded instead: the detection matrix of a
+                                             seeded change without touching /repo)
 """
 import json
 import os
@@ -80,7 +82,8 @@ def _run_one(args):
     tmp = Path(tempfile.mkdtemp(prefix="refac-run-"))
     try:
         shutil.copytree(REPO / "pydsdl", tmp / "pydsdl", ignore=shutil.ignore_patterns("__pycache__"))
-        rc, out = sh(["git", "apply", "--include=pydsdl/*", str(VERIF / "refactorings" / name / "patch.diff")], cwd=tmp)
+        src = VERIF / ("seeded" if "-agent" in name else "refactorings") / name / "patch.diff"
+        rc, out = sh(["git", "apply", "--include=pydsdl/*", str(src)], cwd=tmp)
         if rc:
             return name, {"*": "patch does not apply: " + out[:100]}
         res = {}
